@@ -298,6 +298,10 @@ class BuiltinMixin:
         if t is str:
             return self.str_(a[0]) if a else ""
         if t is list:
+            if a and isinstance(a[0], LogList):
+                return a[0].clone()
+            if a and isinstance(a[0], Obj) and isinstance(a[0].items, LogList):
+                return a[0].items.clone()
             return self.iterate(a[0]) if a else []
         if t is tuple:
             return tuple(self.iterate(a[0])) if a else ()
